@@ -564,35 +564,41 @@ def track_e2e(pid, seed, runs, verdict):
     (cli.notif) and the model-independent monitor C12e2e is evaluated on every client frame."""
     wd = L.workdir(pid.lower() + "-e2e")
     sd, _ = prepare_spec(wd)
-    trace = os.path.join(wd, "track.ndjson")
-    lines, panics = simtrace("track", runs, seed, trace)
-    diffs, viols, done = validate_trace(sd, trace, wd)
-    mine_v = [x for x in viols if x["prop"] == "C12e2e"]
-    mine_d = [x for x in diffs if diff_field(x) == "cli.notif"]
-    notified = 0
-    multi = 0
-    with open(trace) as f:
-        for line in f:
-            d = json.loads(line)
-            if d["ev"] == "CliFrame":
-                notified += sum(len(v["notif"]) for v in d["post"]["cli"].values())
-            if d["ev"] == "SrvFrame":
-                multi += sum(1 for m in d["obs"]["sent"] if m["ch"] == "mut" and m["m"].get("cnt", 0) > 1)
-    seen = set()
-    for x in mine_v + mine_d:
-        if x["run"] in seen:
-            continue
-        seen.add(x["run"])
-        rp = os.path.join(L.REPLAYS, f"{pid}-track-seed{seed}-run{x['run']}.ndjson")
-        os.makedirs(L.REPLAYS, exist_ok=True)
-        extract_run(trace, x["run"], rp)
-        verdict.violation(rp, f"MutateTickReceived end to end: {'monitor C12e2e' if 'prop' in x else 'notifications differ from the prediction'} "
-                              f"at step {x['i']}: pred={str(x.get('pred'))[:200]} obs={str(x.get('obs'))[:200]}")
+    CH = 400        # generated and validated in chunks (the validator holds one file in memory)
+    lines = notified = multi = tdiffs = tviols = attributed = 0
+    for ci, start in enumerate(range(0, runs, CH)):
+        n = min(CH, runs - start)
+        trace = os.path.join(wd, f"track.{ci}.ndjson")
+        ln, panics = simtrace("track", n, seed + 7919 * ci, trace, timeout=1800)
+        diffs, viols, done = validate_trace(sd, trace, wd, timeout=max(600, ln // 100))
+        lines += ln
+        tdiffs += done["diffs"]
+        tviols += done["viols"]
+        mine_v = [x for x in viols if x["prop"] == "C12e2e"]
+        mine_d = [x for x in diffs if diff_field(x) == "cli.notif"]
+        attributed += len(mine_v) + len(mine_d)
+        with open(trace) as f:
+            for line in f:
+                d = json.loads(line)
+                if d["ev"] == "CliFrame":
+                    notified += sum(len(v["notif"]) for v in d["post"]["cli"].values())
+                if d["ev"] == "SrvFrame":
+                    multi += sum(1 for m in d["obs"]["sent"] if m["ch"] == "mut" and m["m"].get("cnt", 0) > 1)
+        seen = set()
+        for x in mine_v + mine_d:
+            if x["run"] in seen:
+                continue
+            seen.add(x["run"])
+            rp = os.path.join(L.REPLAYS, f"{pid}-track.{ci}-seed{seed}-run{x['run']}.ndjson")
+            os.makedirs(L.REPLAYS, exist_ok=True)
+            extract_run(trace, x["run"], rp)
+            verdict.violation(rp, f"MutateTickReceived end to end: {'monitor C12e2e' if 'prop' in x else 'notifications differ from the prediction'} "
+                                  f"at step {x['i']}: pred={str(x.get('pred'))[:200]} obs={str(x.get('obs'))[:200]}")
     if notified == 0 or multi == 0:
         raise L.ToolError("vacuity: the tracking profile produced no notification or no multi-message tick")
     shutil.rmtree(wd, ignore_errors=True)
     return {"runs": runs, "events": lines, "notifications_observed": notified, "messages_of_multi_message_ticks": multi,
-            "diffs": done["diffs"], "viols": done["viols"], "attributed": len(mine_v) + len(mine_d)}
+            "diffs": tdiffs, "viols": tviols, "attributed": attributed}
 
 
 def replay_file(pid, path):
